@@ -74,7 +74,9 @@ Print Assumptions C14_run_depends_on_environment_only.
     [srel pv pv Z pv_eq r1 r2] (Proofs/SimRelProofs.v) says: neither run crashed; after the last step both hold
     the same particles in the same order — same release row (tag), same pid, same liveness, values equal up
     to == on the rationals (position, depth class, age, scalar) —; the same number of particles was released;
-    and the two runs wrote the same number of records, each at the same step with the same (pid, row, values). *)
+    and the two runs wrote the same number of records, each at the same step with the same (pid, row, values).
+    The releaser of the set-up works in either mode ([s_cont]): discrete release of the table rows at their
+    times, or continuous release (discretize() on the frequency grid; tables satisfying C04's [cont_ok]). *)
 Theorem C14_closed_shift : forall s d, setup_ok s = true ->
   setup_ok (shift_setup s d) = true /\ srel pv pv Z pv_eq (m_run s) (m_run (shift_setup s d)).
 Proof. exact shift_invariance. Qed.
@@ -82,7 +84,9 @@ Print Assumptions C14_closed_shift.
 
 (** the machines compute the specification: for every well-formed set-up the run equals the run in which
     particles enter at the steps of their release times (C04's schedule), feel the linear interpolation of
-    the frames (C03) with the reversal sign, and carry the latest scalar frame *)
+    the frames (C03) with the reversal sign, and carry the latest scalar frame; in continuous-release mode
+    particles enter at every tick of the frequency grid inside the window, with the row set of the latest
+    file time (C04's [cont_released_at]) *)
 Theorem C14_run_refines_spec : forall s, setup_ok s = true -> srel pv pv Z pv_eq (m_run s) (sp_run s).
 Proof. exact run_refines_spec. Qed.
 Print Assumptions C14_run_refines_spec.
@@ -94,4 +98,15 @@ Example C14_closed_ex :
   show_run (m_run ex_setup) =
     [(0, [(0, 0, 5%Q, 0, 40%Q)]); (2, [(0, 0, (27 # 8)%Q, 2, 30%Q); (1, 1, 6%Q, 0, 30%Q); (2, 1, 6%Q, 0, 30%Q)]);
      (4, [(0, 0, (21 # 8)%Q, 4, 20%Q); (1, 1, (45 # 8)%Q, 2, 20%Q); (2, 1, (45 # 8)%Q, 2, 20%Q)])].
+Proof. vm_compute. repeat split. Qed.
+
+(** non-vacuity, continuous release: the forward set-up [ex_setup_cont] of Model/Setup.v releases every 1200 s on
+    a 600 s clock: the row of file time 0 enters at steps 0 and 2 (forward fill), the rows of file time 2400
+    at step 4 (tags of the particles in the three records) *)
+Example C14_closed_cont_ex :
+  s_cont ex_setup_cont = Some 1200 /\ setup_ok ex_setup_cont = true /\ setup_ok (shift_setup ex_setup_cont 777) = true /\
+  show_run (m_run (shift_setup ex_setup_cont 777)) = show_run (m_run ex_setup_cont) /\
+  show_run (sp_run ex_setup_cont) = show_run (m_run ex_setup_cont) /\
+  map (fun r : rec pv => (rstep r, map (fun y : Z * Z * pv => snd (fst y)) (rrows r))) (recs (m_run ex_setup_cont)) =
+    [(0, [0]); (2, [0; 0]); (4, [0; 0; 1; 1; 2])].
 Proof. vm_compute. repeat split. Qed.
